@@ -29,6 +29,9 @@ pub enum FK {
     DevNull,
     /// an end of a pipe made by the harness
     PipeEnd,
+    /// one regular file for all streams of this kind, but opened separately for
+    /// each: same path, same inode, different open file descriptions
+    SamePath,
 }
 
 #[derive(Clone, Debug, Serialize, Deserialize)]
@@ -128,6 +131,13 @@ fn spawn_once(case: &WireCase, helper: &std::path::Path, prefix: &std::path::Pat
                 } else {
                     match case.kinds[i] {
                         FK::Regular => open_regular(format!("f{}.{}", i, serial)),
+                        FK::SamePath => {
+                            let p = dir.join(format!("same.{}", serial));
+                            if !p.exists() {
+                                drop(open_regular(format!("same.{}", serial)));
+                            }
+                            std::fs::OpenOptions::new().read(true).write(true).open(&p).unwrap()
+                        }
                         FK::DevNull => std::fs::OpenOptions::new().read(true).write(true).open("/dev/null").unwrap(),
                         FK::PipeEnd => {
                             let mut fds = [0i32; 2];
@@ -531,7 +541,7 @@ pub fn check_case(ctx: &Ctx, case: &WireCase, rep: &mut CaseReport) -> CaseResul
 const ALL: [RK; 5] = [RK::None, RK::Pipe, RK::File, RK::RcFile, RK::Merge];
 
 fn variant_strategy() -> impl Strategy<Value = ([FK; 3], bool, bool, u8, bool, u8)> {
-    let fk = prop_oneof![3 => Just(FK::Regular), 1 => Just(FK::DevNull), 1 => Just(FK::PipeEnd)];
+    let fk = prop_oneof![3 => Just(FK::Regular), 1 => Just(FK::DevNull), 1 => Just(FK::PipeEnd), 2 => Just(FK::SamePath)];
     ([fk.clone(), fk.clone(), fk], any::<bool>(), any::<bool>(), prop_oneof![3 => Just(1u8), 2 => 2u8..5, 1 => 5u8..21], prop_oneof![2 => Just(false), 1 => Just(true)], prop_oneof![2 => Just(0u8), 1 => 1u8..16])
 }
 
